@@ -639,10 +639,14 @@ Proof.
 Qed.
 
 (* ================================================================== Part 7 *)
-(* Go == on two floats of which neither is -0.0 is identity (FloatAxioms: eqb_spec, Prim2SF_inj) *)
+(* the specification of primitive floats from the standard library (Coq.Floats): eqb_spec, Prim2SF_inj *)
+Lemma float_eqb_SF (x y : float) : PrimFloat.eqb x y = SFeqb (Prim2SF x) (Prim2SF y).
+Proof. exact (eqb_spec x y). Qed.
+
+(* Go == on two floats of which neither is -0.0 is identity *)
 Lemma float_eqb_eq f g : PrimFloat.eqb f g = true -> negzero f = false -> negzero g = false -> f = g.
 Proof.
-  unfold negzero. rewrite FloatAxioms.eqb_spec. intros He Hf Hg. apply FloatAxioms.Prim2SF_inj.
+  unfold negzero. rewrite float_eqb_SF. intros He Hf Hg. apply Prim2SF_inj.
   destruct (Prim2SF f) as [sf| sf| |sf mf ef], (Prim2SF g) as [sg|sg| |sg mg eg];
     unfold SFeqb in He; cbn [SFcompare] in He; try discriminate.
   all: try (destruct sf; discriminate). all: try (destruct sg; discriminate).
@@ -832,4 +836,144 @@ Proof.
   unfold compile_bytes. destruct (compilable e).
   - rewrite assemble_items_fails_iff. split; [intros H; right; exact H|intros [H|H]; [discriminate|exact H]].
   - split; [intros _; left; reflexivity|reflexivity].
+Qed.
+
+(* ================================================================== hashable constants *)
+(* the items of an expression whose ConstantNodes are hashable are all acceptable to the assembler:
+   compiling it can only fail for size *)
+Notation all_ok := (forallb item_ok).
+
+Lemma all_ok_app a b : all_ok (a ++ b) = all_ok a && all_ok b.
+Proof. apply forallb_app. Qed.
+
+Lemma hashable_list l :
+  (fix all_h (es : list expr) : bool := match es with [] => true | x :: r => consts_hashable x && all_h r end) l = true ->
+  forall x, In x l -> consts_hashable x = true.
+Proof.
+  induction l as [|y l IH]; intros H x Hin; [contradiction|].
+  apply andb_prop in H. destruct H as [H1 H2]. destruct Hin as [E|E]; subst; auto.
+Qed.
+
+Lemma int_const_ok a z : const_ok (CVal (int_const a z)) = true.
+Proof. unfold int_const. destruct (akind a) as [| |k| | | | | | | |]; try reflexivity. destruct (is_float k); reflexivity. Qed.
+
+Section AllOk.
+Variable mapenv : bool.
+Notation citems := (compile_items mapenv).
+Definition Hok (e : expr) : Prop := all_ok (citems e) = true.
+
+Lemma Hok_list es : (forall x, In x es -> Hok x) -> all_ok (items_list mapenv es) = true.
+Proof.
+  induction es as [|x r IH]; intros Hall; cbn [items_list]; [reflexivity|].
+  rewrite all_ok_app, (Hall x (or_introl eq_refl)), IH; [reflexivity|]. intros y Hy. apply Hall. right. exact Hy.
+Qed.
+
+Lemma Hok_pairs ps : (forall x, In x ps -> match x with EPair _ k v => Hok k /\ Hok v | _ => True end) ->
+  all_ok (items_pairs mapenv ps) = true.
+Proof.
+  induction ps as [|x r IH]; intros Hall; cbn [items_pairs]; [reflexivity|].
+  pose proof (Hall x (or_introl eq_refl)) as Hx.
+  assert (Hr : all_ok (items_pairs mapenv r) = true) by (apply IH; intros y Hy; apply Hall; right; exact Hy).
+  destruct x; try exact Hr. destruct Hx as [Hk Hv]. rewrite !all_ok_app, Hk, Hv, Hr. reflexivity.
+Qed.
+
+Ltac okc := repeat (progress (unfold loop_items, cond_items; rewrite ?forallb_app; cbn [forallb ins map item_ok ioperand app])).
+
+Lemma Hok_builtin2 a b x c : Hok x -> Hok c -> Hok (EBuiltin a b [x; c]).
+Proof.
+  unfold Hok. intros Hx Hc.
+  destruct b; cbn [compile_items]; try reflexivity; okc; fold (all_ok (citems x)); fold (all_ok (citems c));
+    rewrite ?Hx, ?Hc; reflexivity.
+Qed.
+
+Theorem all_ok_compile_sized : forall n e, (esize e < n)%nat -> consts_hashable e = true -> Hok e.
+Proof.
+  induction n as [|n IH]; intros e Hsz Hh; [lia|].
+  destruct e; cbn [esize] in Hsz; rewrite ?lsize_eq in Hsz; cbn [consts_hashable] in Hh; unfold Hok.
+  - reflexivity.
+  - cbn [compile_items compile]. destruct mapenv; [|destruct nilsafe]; reflexivity.
+  - cbn [compile_items compile at_ map items_of_code fst snd forallb item_ok ioperand]. rewrite int_const_ok. reflexivity.
+  - reflexivity.
+  - cbn [compile_items compile]. destruct b; reflexivity.
+  - reflexivity.
+  - cbn [compile_items compile at_ map items_of_code fst snd forallb item_ok].
+    destruct v; try reflexivity; cbn [ioperand]; rewrite Hh; reflexivity.
+  - (* unary *) cbn [compile_items]. okc. fold (all_ok (citems e)). rewrite (IH e) by (auto; lia). destruct op; reflexivity.
+  - (* binary *)
+    apply andb_prop in Hh. destruct Hh as [Hh1 Hh2].
+    assert (H1 : Hok e1) by (apply IH; auto; lia). assert (H2 : Hok e2) by (apply IH; auto; lia). unfold Hok in H1, H2.
+    destruct op; cbn [compile_items]; okc; fold (all_ok (citems e1)); fold (all_ok (citems e2)); rewrite ?H1, ?H2;
+      try reflexivity; unfold binop_code;
+      destruct (both_kind (RKNum KInt) e1 e2); try reflexivity; destruct (both_kind RKString e1 e2); reflexivity.
+  - (* matches *)
+    apply andb_prop in Hh. destruct Hh as [Hh1 Hh2].
+    assert (H1 : Hok e1) by (apply IH; auto; lia). unfold Hok in H1.
+    destruct re; cbn [compile_items]; okc; fold (all_ok (citems e1)); rewrite H1; [reflexivity|].
+    fold (all_ok (citems e2)). rewrite (IH e2) by (auto; lia). reflexivity.
+  - (* property *) cbn [compile_items]. okc. fold (all_ok (citems e)). rewrite (IH e) by (auto; lia). destruct nilsafe; reflexivity.
+  - (* index *)
+    apply andb_prop in Hh. destruct Hh as [Hh1 Hh2].
+    cbn [compile_items]. okc. fold (all_ok (citems e1)); fold (all_ok (citems e2)).
+    rewrite (IH e1), (IH e2) by (auto; lia). reflexivity.
+  - (* slice *)
+    apply andb_prop in Hh. destruct Hh as [Hh Hh3]. apply andb_prop in Hh. destruct Hh as [Hh1 Hh2].
+    assert (H1 : Hok e) by (apply IH; auto; lia). unfold Hok in H1.
+    destruct from as [f|], to as [t|]; cbn [compile_items]; okc; fold (all_ok (citems e)); rewrite H1;
+      try (fold (all_ok (citems f)); rewrite (IH f) by (auto; lia));
+      try (fold (all_ok (citems t)); rewrite (IH t) by (auto; lia)); reflexivity.
+  - (* method *)
+    apply andb_prop in Hh. destruct Hh as [Hh1 Hh2].
+    rewrite imethod_eq. okc. fold (all_ok (citems e)). fold (all_ok (items_list mapenv args)).
+    rewrite (IH e) by (auto; lia). rewrite Hok_list; [destruct nilsafe; reflexivity|].
+    intros x Hx. apply IH; [pose proof (in_lsize _ _ Hx); lia|eapply hashable_list; eauto].
+  - (* function *)
+    rewrite ifunction_eq. okc. fold (all_ok (items_list mapenv args)). rewrite Hok_list; [destruct fast; reflexivity|].
+    intros x Hx. apply IH; [pose proof (in_lsize _ _ Hx); lia|eapply hashable_list; eauto].
+  - (* builtin *)
+    destruct args as [|x [|c [|z args]]]; cbn [lsize] in Hsz.
+    + destruct b; reflexivity.
+    + destruct b; try reflexivity. apply andb_prop in Hh. destruct Hh as [Hh1 _].
+      cbn [compile_items]. okc. fold (all_ok (citems x)). rewrite (IH x) by (auto; lia). reflexivity.
+    + apply andb_prop in Hh. destruct Hh as [Hh1 Hh2]. apply andb_prop in Hh2. destruct Hh2 as [Hh2 _].
+      apply Hok_builtin2; apply IH; auto; lia.
+    + destruct b; reflexivity.
+  - (* closure *) cbn [compile_items]. apply IH; auto; lia.
+  - (* pointer *) reflexivity.
+  - (* conditional *)
+    apply andb_prop in Hh. destruct Hh as [Hh Hh3]. apply andb_prop in Hh. destruct Hh as [Hh1 Hh2].
+    cbn [compile_items]. okc. fold (all_ok (citems e1)); fold (all_ok (citems e2)); fold (all_ok (citems e3)).
+    rewrite (IH e1), (IH e2), (IH e3) by (auto; lia). reflexivity.
+  - (* array *)
+    rewrite iarray_eq. okc. fold (all_ok (items_list mapenv es)). rewrite Hok_list; [reflexivity|].
+    intros x Hx. apply IH; [pose proof (in_lsize _ _ Hx); lia|eapply hashable_list; eauto].
+  - (* map *)
+    rewrite imap_eq. okc. fold (all_ok (items_pairs mapenv pairs)). rewrite Hok_pairs; [reflexivity|].
+    intros x Hx. pose proof (in_lsize _ _ Hx) as Hs. pose proof (hashable_list _ Hh x Hx) as Hp.
+    destruct x; auto. cbn [esize] in Hs. cbn [consts_hashable] in Hp. apply andb_prop in Hp. destruct Hp as [Hk Hv].
+    split; apply IH; auto; lia.
+  - (* pair *) reflexivity.
+Qed.
+
+End AllOk.
+
+Theorem all_ok_compile_program mapenv c e :
+  consts_hashable e = true -> forall it, In it (compile_items_program mapenv c e) -> item_ok it = true.
+Proof.
+  intros Hh. assert (H : all_ok (compile_items_program mapenv c e) = true).
+  { unfold compile_items_program. rewrite all_ok_app, (all_ok_compile_sized mapenv (S (esize e)) e) by (auto; lia).
+    destruct c; reflexivity. }
+  rewrite forallb_forall in H. exact H.
+Qed.
+
+(* deliverable 3 for compiled expressions: Compile fails at byte level only for an expression the
+   compiler does not know (unknown operator / builtin), a jump offset above 65535 or a pool of more
+   than 65535 entries *)
+Theorem compile_bytes_fails_only_when_too_big mapenv c e :
+  consts_hashable e = true -> compile_bytes mapenv c e = None ->
+  compilable e = false \/
+  (exists it, In it (compile_items_program mapenv c e) /\ jump_too_far it = true) \/
+  max_uint16 < Z.of_nat (List.length (pool_of (compile_items_program mapenv c e) [])).
+Proof.
+  intros Hh H. apply compile_bytes_fails_iff in H. destruct H as [H|[[x [Hin Hx]]|H]]; [left; exact H| |right; exact H].
+  rewrite (all_ok_compile_program mapenv c e Hh x Hin) in Hx. discriminate.
 Qed.
